@@ -215,6 +215,22 @@ func genC15(r *Rng, tier string) []Case {
 				dec(d, stream, v, 16384, pick(), "plain")
 			}
 		}
+		// what NewDecoder takes from a plain source: honest streams, refused record sizes, short and bad headers
+		for i := 0; i < 12; i++ {
+			rs := []int{1, 16, 300, 5000}[r.Intn(4)]
+			stream, dg := miEncodeRef(d, rs, r.Bytes(300+r.Intn(5000)))
+			if len(stream) < 8 {
+				continue
+			}
+			for _, v := range []uint64{uint64(rs), 0, 16385, 1 << 40, 1<<64 - 1} {
+				m := append([]byte{}, stream...)
+				binary.BigEndian.PutUint64(m, v)
+				cs = append(cs, Case{"mi_new_consumed", []Sx{draftSym(d), B(m), B([]byte(dg)), Zu(16384)}})
+			}
+			cs = append(cs, Case{"mi_new_consumed", []Sx{draftSym(d), B(stream[:r.Intn(8)]), B([]byte(dg)), Zu(16384)}})
+			cs = append(cs, Case{"mi_new_consumed", []Sx{draftSym(d), B(stream), B([]byte("garbage")), Zu(16384)}})
+			cs = append(cs, Case{"mi_new_consumed", []Sx{draftSym(d), B(stream), B([]byte(dg)), Zu(uint64(rs) - 1)}})
+		}
 		// two decoders alive at the same time (hidden shared state would show here)
 		for i := 0; i < 40; i++ {
 			rs := []int{1, 7, 16, 64}[r.Intn(4)]
